@@ -198,8 +198,8 @@ def ord2ymd (ord : Int) : Int × Int × Int :=
   if n1 = 4 ∨ n100 = 4 then (year - 1, 12, 31)
   else
     let leap := decide (n1 = 3) && (decide (n4 ≠ 24) || decide (n100 = 3))
-    let (m, d) := monthDay leap n
-    (year, m, d)
+    let md := monthDay leap n
+    (year, md.1, md.2)
 
 /-- `_MAXORDINAL` = `date(9999, 12, 31).toordinal()` -/
 def maxOrdinal : Int := 3652059
@@ -209,8 +209,8 @@ def msPerDay : Int := 86400000
 /-- the datetime at day ordinal `ord`, `tod` milliseconds after midnight; `none` outside years 1..9999 -/
 def fromOrdinalMs (ord tod : Int) : Option DT :=
   if 1 ≤ ord ∧ ord ≤ maxOrdinal then
-    let (y, m, d) := ord2ymd ord
-    some ⟨y, m, d, tod / 3600000, tod / 60000 % 60, tod / 1000 % 60, tod % 1000⟩
+    let p := ord2ymd ord
+    some ⟨p.1, p.2.1, p.2.2, tod / 3600000, tod / 60000 % 60, tod / 1000 % 60, tod % 1000⟩
   else none
 
 /-- what `datetimeNew` means: calendar arithmetic from the first of the (normalised) month -/
